@@ -1,3 +1,4 @@
 //! Workload generators (pure functions of seed + index).
+pub mod prog;
 pub mod text;
 pub mod toks;
